@@ -85,7 +85,9 @@ pub fn eval_op(op: &str, input: &mut Value) -> OpResult {
     "client.method" => {
       let client = files.get("client").ok_or("no client file")?;
       let cf = facts::file_facts(client);
-      Ok(json!({"methods": cf["client_methods"], "items": structs, "warnings": stats["warnings"], "header_impls": tf["items"].as_array().map(|a| a.iter().filter(|i| i["kind"] == "impl" && i["trait"].as_str().is_some_and(|t| t.contains("TryFrom"))).cloned().collect::<Vec<_>>())}))
+      // wire layout of query members and header insertions (shared reader of the C06 request side)
+      let wire = crate::k_req::client_wire(types, &cf["client_methods"]);
+      Ok(json!({"methods": cf["client_methods"], "items": structs, "wire": wire, "warnings": stats["warnings"], "header_impls": tf["items"].as_array().map(|a| a.iter().filter(|i| i["kind"] == "impl" && i["trait"].as_str().is_some_and(|t| t.contains("TryFrom"))).cloned().collect::<Vec<_>>())}))
     }
     "server.op" => {
       let server = files.get("server").ok_or("no server file")?;
